@@ -41,10 +41,14 @@ Definition type_max (code : N) : option N :=
 (* ---------- primesieve_iterator ---------- *)
 Record c_iter := { ci : iter; ci_error : bool }.
 
-(** the state the catch block of primesieve_generate_next_primes establishes *)
+(** the state the catch block of primesieve_generate_next_primes establishes (setErrorState after
+    primesieve_clear): start = stop = PRIMESIEVE_ERROR, primes = { PRIMESIEVE_ERROR } *)
 Definition error_iter : iter :=
-  {| it_i := 0; it_start := 0; it_hint := MAX64; it_buf := [PRIMESIEVE_ERROR];
+  {| it_i := 0; it_start := PRIMESIEVE_ERROR; it_hint := MAX64; it_buf := [PRIMESIEVE_ERROR];
      it_mem := Some {| d_stop := PRIMESIEVE_ERROR; d_dist := 0; d_incl := true; d_gen := None |} |}.
+(** the same when the IteratorData could not even be allocated *)
+Definition error_iter_nomem : iter :=
+  {| it_i := 0; it_start := PRIMESIEVE_ERROR; it_hint := MAX64; it_buf := [PRIMESIEVE_ERROR]; it_mem := None |}.
 
 Section CIter.
   Variable nextDist : N -> N -> N.
